@@ -1,6 +1,7 @@
 (* C19 model: the chain driver of phyclone/run.py (run_phyclone_chain, _run_burnin, _run_main_sampler) as a
    state machine over an abstract tree state, with a crash (a Python exception) modelled as [None]; plus two
-   index-level models of the places where the pinned code raises on valid input:
+   index-level models of the places where the pinned code (commit 30a152a) raised on valid input (flag `fixed` = false;
+   `fixed` = true mirrors the repaired code of fb970cc / c51a714):
      - ConditionalSMCSampler._resample_swarm reads constrained_path[self.iteration + 1]
        (phyclone/smc/samplers/conditional.py), a list of length T+1 for T data points;
      - ParticleGibbsSubtreeSampler.sample_tree calls rng.choice(nodes) with nodes = labels of the
